@@ -16,6 +16,7 @@ import (
 
 	"github.com/apache/skywalking-banyandb/pkg/pipeline/sdk"
 	"github.com/apache/skywalking-banyandb/pkg/pipeline/sdk/sdktest"
+	"github.com/apache/skywalking-banyandb/pkg/timestamp"
 )
 
 // VerifC13 handles one protocol line.
@@ -38,6 +39,8 @@ func VerifC13(f []string) string {
 		return verifC13SearchPBM(f[1:])
 	case "pb":
 		return verifC13PartIter(f[1:])
+	case "cv":
+		return verifC13Coverage(f[1:])
 	}
 	return "bad-op"
 }
@@ -497,4 +500,40 @@ func verifC13PartIter(f []string) (res string) {
 		return "-"
 	}
 	return strings.Join(out, ",")
+}
+
+// ---------------------------------------------------------------------------------------
+// segment coverage: traceFragmentCoverage / traceFragmentCoverageHasInterior on a segment time range
+// with any IncludeStart / IncludeEnd combination, and the guard a session would build from it
+// (catalogue coverage = that result) resolving a DROP for a trace with the given bounds.
+
+// cv <startNs|z> <endNs|z> <incStart><incEnd> <grace> <tmin> <tmax>
+func verifC13Coverage(f []string) string {
+	tr := timestamp.TimeRange{IncludeStart: f[2][0] == '1', IncludeEnd: f[2][1] == '1'}
+	if f[0] != "z" {
+		tr.Start = time.Unix(0, c13Int(f[0]))
+	}
+	if f[1] != "z" {
+		tr.End = time.Unix(0, c13Int(f[1]))
+	}
+	grace := time.Duration(c13Int(f[3]))
+	mn, mx, known := traceFragmentCoverage(tr)
+	interior := traceFragmentCoverageHasInterior(mn, mx, grace)
+	head := fmt.Sprintf("cov=%d,%d,%s int=%s", mn, mx, b01(known), b01(interior))
+	if !known || !interior {
+		return head + " nosession"
+	}
+	pin := &c13Pin{}
+	g := newTraceFragmentGuard(
+		traceFragmentGuardConfig{Grace: grace, MaxBloomProbes: 8, MaxConfirmedDrops: 8},
+		traceFragmentGuardCatalog{
+			Pin: pin, BaseEpoch: 1, Complete: true, CoverageKnown: known, CoverageMinTimestamp: mn, CoverageMaxTimestamp: mx,
+			EnforcedMaxFragmentGap: grace, TemporalSafety: traceFragmentTemporalSafetyMaxGapEnforced,
+		})
+	defer g.Close()
+	d := g.Resolve(context.Background(), traceFragmentGuardTrace{
+		TraceID: "t", Complete: true,
+		Blocks: []traceFragmentGuardBlock{{MinTimestamp: c13Int(f[4]), MaxTimestamp: c13Int(f[5]), BoundsKnown: true}},
+	}, traceFragmentSamplerActionDrop)
+	return fmt.Sprintf("%s R %d %s", head, d.Action, c13Reason(d.Reason))
 }
